@@ -381,6 +381,134 @@ func Reach(from *ssa.BasicBlock, blockedB map[*ssa.BasicBlock]bool, blockedE map
 	return seen
 }
 
+// ReachVia is Reach from block `to` as entered over the edge from->to: if that edge fixes the outcome of
+// the branch at `to` (jump threading), only the forced successor is followed.
+func ReachVia(from, to *ssa.BasicBlock, blockedB map[*ssa.BasicBlock]bool, blockedE map[Edge]bool) map[*ssa.BasicBlock]bool {
+	thr := threadInfo(to.Parent())
+	only, forced := thr[Edge{from, to}]
+	if !forced || blockedB[to] {
+		return Reach(to, blockedB, blockedE)
+	}
+	seen := map[*ssa.BasicBlock]bool{to: true}
+	if blockedB[only] || blockedE[Edge{to, only}] {
+		return seen
+	}
+	for b := range Reach(only, blockedB, blockedE) {
+		seen[b] = true
+	}
+	return seen
+}
+
+// ReachEdges is Reach reporting the CFG edges that can be traversed.
+func ReachEdges(from *ssa.BasicBlock, blockedB map[*ssa.BasicBlock]bool, blockedE map[Edge]bool) map[Edge]bool {
+	out := map[Edge]bool{}
+	if blockedB[from] {
+		return out
+	}
+	infeasible := infeasibleEdges(from.Parent())
+	thr := threadInfo(from.Parent())
+	type state struct{ b, via *ssa.BasicBlock }
+	seenS := map[state]bool{{from, nil}: true}
+	stack := []state{{from, nil}}
+	for len(stack) > 0 {
+		st := stack[len(stack)-1]
+		stack = stack[:len(stack)-1]
+		b := st.b
+		succs := b.Succs
+		if st.via != nil {
+			if only, ok := thr[Edge{st.via, b}]; ok {
+				succs = []*ssa.BasicBlock{only}
+			}
+		}
+		for _, s := range succs {
+			if blockedB[s] || blockedE[Edge{b, s}] || infeasible[Edge{b, s}] {
+				continue
+			}
+			out[Edge{b, s}] = true
+			ns := state{s, nil}
+			if _, threaded := thr[Edge{b, s}]; threaded {
+				ns.via = b
+			}
+			if seenS[ns] {
+				continue
+			}
+			seenS[ns] = true
+			stack = append(stack, ns)
+		}
+	}
+	return out
+}
+
+// HoldsOnEdge: boolean v is known to equal want whenever the CFG edge from->to is taken.
+func HoldsOnEdge(v ssa.Value, want bool, from, to *ssa.BasicBlock) bool {
+	fn := from.Parent()
+	for _, e := range EdgesWhere(fn, v, want) {
+		if e.From == from && e.To == to {
+			return true
+		}
+		if !ReachEdges(fn.Blocks[0], nil, map[Edge]bool{{e.From, e.To}: true})[Edge{from, to}] {
+			return true
+		}
+	}
+	// the branch at `from` tests a boolean phi of `from`: on this edge the phi has a known value, so it
+	// was entered through an edge whose value can be that; v holds if it holds for each of those entries
+	if len(from.Instrs) == 0 || len(from.Succs) != 2 || from.Succs[0] == from.Succs[1] {
+		return false
+	}
+	iff, ok := from.Instrs[len(from.Instrs)-1].(*ssa.If)
+	if !ok {
+		return false
+	}
+	c, neg := iff.Cond, false
+	for {
+		if u, isU := c.(*ssa.UnOp); isU && u.Op == token.NOT {
+			c, neg = u.X, !neg
+			continue
+		}
+		break
+	}
+	phi, isPhi := c.(*ssa.Phi)
+	if !isPhi || phi.Block() != from {
+		return false
+	}
+	phiVal := to == from.Succs[0] // value of the (possibly negated) condition on this edge
+	if neg {
+		phiVal = !phiVal
+	}
+	thr := threadInfo(fn)
+	reachable := ReachEdges(fn.Blocks[0], nil, nil)
+	any := false
+	for i, p := range from.Preds {
+		if !reachable[Edge{p, from}] {
+			continue
+		}
+		if only, forced := thr[Edge{p, from}]; forced && only != to {
+			continue
+		}
+		if k, isC := ConstBool(phi.Edges[i]); isC && k != phiVal {
+			continue
+		}
+		any = true
+		e := phi.Edges[i]
+		ev, ew := e, phiVal
+		for {
+			if u, isU := ev.(*ssa.UnOp); isU && u.Op == token.NOT {
+				ev, ew = u.X, !ew
+				continue
+			}
+			break
+		}
+		if ev == v && ew == want {
+			continue
+		}
+		if HoldsAt(v, want, p) {
+			continue
+		}
+		return false
+	}
+	return any
+}
+
 var threadCache = map[*ssa.Function]map[Edge]*ssa.BasicBlock{}
 
 // threadInfo: for an edge P->T where T ends in a branch whose outcome is fixed by the value a phi
@@ -449,6 +577,9 @@ func threadInfo(fn *ssa.Function) map[Edge]*ssa.BasicBlock {
 					outcome, known = true, true
 				} else if factPlain(e, false, p) {
 					outcome, known = false, true
+				} else if k, ok := ownBranchValue(e, p, t); ok {
+					// the value is the condition p itself branches on, and p->t is one side of that branch
+					outcome, known = k, true
 				}
 			case "nil":
 				isNil, kn := nilnessPlain(e, p)
@@ -525,6 +656,41 @@ func NonEmptyString(v ssa.Value, depth int) bool {
 		return true
 	}
 	return false
+}
+
+// ownBranchValue: block p ends in `if c` (c possibly negated v) and t is exactly one of its two distinct
+// successors: the value v has on the edge p->t.
+func ownBranchValue(v ssa.Value, p, t *ssa.BasicBlock) (val, ok bool) {
+	if len(p.Instrs) == 0 || len(p.Succs) != 2 || p.Succs[0] == p.Succs[1] {
+		return false, false
+	}
+	iff, isIf := p.Instrs[len(p.Instrs)-1].(*ssa.If)
+	if !isIf {
+		return false, false
+	}
+	// strip negations on both sides
+	c, cn := iff.Cond, false
+	for {
+		if u, isU := c.(*ssa.UnOp); isU && u.Op == token.NOT {
+			c, cn = u.X, !cn
+			continue
+		}
+		break
+	}
+	w, wn := v, false
+	for {
+		if u, isU := w.(*ssa.UnOp); isU && u.Op == token.NOT {
+			w, wn = u.X, !wn
+			continue
+		}
+		break
+	}
+	if c != w {
+		return false, false
+	}
+	condVal := t == p.Succs[0] // value of iff.Cond on this edge
+	baseVal := condVal != cn   // value of c
+	return baseVal != wn, true // value of v
 }
 
 // factPlain: boolean v is known to equal want at the end of block p (plain dominance, no threading),
@@ -950,8 +1116,60 @@ func HoldsAt(v ssa.Value, want bool, x *ssa.BasicBlock) bool {
 			return true
 		}
 	}
+	// v may be one of the values merged into a boolean phi that a dominating branch tested
+	// (`a && b` lowers to phi [false, b]): on the phi's true edge b is true
+	if holdsDepth > 2 {
+		return false
+	}
+	holdsDepth++
+	defer func() { holdsDepth-- }()
+	for _, t := range x.Parent().Blocks {
+		if len(t.Instrs) == 0 || len(t.Succs) != 2 || t.Succs[0] == t.Succs[1] {
+			continue
+		}
+		iff, ok := t.Instrs[len(t.Instrs)-1].(*ssa.If)
+		if !ok {
+			continue
+		}
+		c := iff.Cond
+		for {
+			if u, isU := c.(*ssa.UnOp); isU && u.Op == token.NOT {
+				c = u.X
+				continue
+			}
+			break
+		}
+		phi, isPhi := c.(*ssa.Phi)
+		if !isPhi || phi.Block() != t {
+			continue
+		}
+		mentions := false
+		for _, e := range phi.Edges {
+			ev := e
+			for {
+				if u, isU := ev.(*ssa.UnOp); isU && u.Op == token.NOT {
+					ev = u.X
+					continue
+				}
+				break
+			}
+			if ev == v {
+				mentions = true
+			}
+		}
+		if !mentions {
+			continue
+		}
+		for _, sb := range t.Succs {
+			if EdgeDominates(t, sb, x) && HoldsOnEdge(v, want, t, sb) {
+				return true
+			}
+		}
+	}
 	return false
 }
+
+var holdsDepth int
 
 // InLoop reports whether block b lies on a CFG cycle.
 func InLoop(b *ssa.BasicBlock) bool {
@@ -1094,10 +1312,28 @@ type RetPoint struct {
 	Results []ssa.Value
 	At      *ssa.BasicBlock // facts that hold at the end of this block hold on this way out
 	Join    *ssa.BasicBlock // the joining return block At jumps to (nil for a plain return)
+	via     map[*ssa.BasicBlock]bool // the join blocks between At and Join
 }
 
 // Block is the block at whose end this way of returning is decided.
 func (r *RetPoint) Block() *ssa.BasicBlock { return r.At }
+
+// Holds: boolean v is known to equal want on this way out: at the end of At, or because the edge from
+// At into the joining return block is itself the want-edge of a branch on v.
+func (r *RetPoint) Holds(v ssa.Value, want bool) bool {
+	if HoldsAt(v, want, r.At) {
+		return true
+	}
+	if r.Join == nil {
+		return false
+	}
+	for _, s := range r.At.Succs {
+		if s == r.Join || r.via[s] {
+			return HoldsOnEdge(v, want, r.At, s)
+		}
+	}
+	return false
+}
 
 // Anchor is the instruction that ends this way out: the return itself, or the jump into the join.
 func (r *RetPoint) Anchor() ssa.Instruction {
@@ -1115,11 +1351,14 @@ func IsReturnJoin(b *ssa.BasicBlock) bool {
 	if len(b.Instrs) == 0 || len(b.Preds) < 2 {
 		return false
 	}
+	nPhi := 0
 	for i, in := range b.Instrs {
 		switch in.(type) {
-		case *ssa.Phi, *ssa.DebugRef:
+		case *ssa.Phi:
+			nPhi++
+		case *ssa.DebugRef:
 		case *ssa.Return:
-			return i == len(b.Instrs)-1
+			return i == len(b.Instrs)-1 && nPhi > 0
 		default:
 			return false
 		}
@@ -1153,7 +1392,9 @@ func ReturnPoints(fn *ssa.Function) []*RetPoint {
 			continue
 		}
 		var expand func(join *ssa.BasicBlock, vals []ssa.Value, depth int)
+		via := map[*ssa.BasicBlock]bool{}
 		expand = func(join *ssa.BasicBlock, vals []ssa.Value, depth int) {
+			via[join] = true
 			for i, p := range join.Preds {
 				sub := make([]ssa.Value, len(vals))
 				for k, v := range vals {
@@ -1166,7 +1407,7 @@ func ReturnPoints(fn *ssa.Function) []*RetPoint {
 					expand(p, sub, depth+1)
 					continue
 				}
-				out = append(out, &RetPoint{Ret: ret, Results: sub, At: p, Join: b})
+				out = append(out, &RetPoint{Ret: ret, Results: sub, At: p, Join: b, via: via})
 			}
 		}
 		expand(b, ret.Results, 0)
